@@ -47,6 +47,7 @@ static int ip_count = 0;	/* calls seen so far */
 static int ip_exit_at = -1;	/* _exit(0) right before call number k */
 static int ip_fail_at = -1;	/* call number k fails */
 static FILE *ip_file = 0;
+static char ip_lastpath[1024];	/* path of the last armed fopen(.., "w") */
 
 static void *real (const char *name)
 {
@@ -77,6 +78,7 @@ FILE *fopen (const char *path, const char *mode)
           errno = EACCES;
           return 0;
         }
+      snprintf (ip_lastpath, sizeof ip_lastpath, "%s", path);
       ip_file = r (path, mode);
       return ip_file;
     }
@@ -894,6 +896,28 @@ static int c16_cmd (char *line)
         vh_out ("seterr");
       return 1;
     }
+  if (!strcmp (tok[0], "mkd") && n == 2)
+    {
+      /* mkd <hex path>: mkdir -p below the mudlib (for long save paths) */
+      char d[1200];
+      size_t k = strlen (tok[1]) / 2;
+      if (k >= sizeof d)
+        return 0;
+      for (size_t i = 0; i < k; i++)
+        d[i] = (char) (hexv (tok[1][2 * i]) * 16 + hexv (tok[1][2 * i + 1]));
+      d[k] = 0;
+      for (char *q = d + 1; ; q++)
+        if (*q == '/' || !*q)
+          {
+            char c = *q;
+            *q = 0;
+            mkdir (d, 0755);
+            *q = c;
+            if (!c)
+              break;
+          }
+      return 1;
+    }
   if (!strcmp (tok[0], "use") && n == 2)
     {
       /* use obj | many : the object the following commands work on */
@@ -948,7 +972,7 @@ static int c16_cmd (char *line)
   if (!strcmp (tok[0], "son") && n == 4)
     {
       /* son <hex file name given to save_object> <zeros> <hex path (relative to the mudlib) the save must create> */
-      static char name[600], path[600];
+      static char name[1200], path[1200];
       size_t ln = strlen (tok[1]) / 2, lp = strlen (tok[3]) / 2;
       static int (*ru) (const char *);
       if (!ru)
@@ -964,10 +988,24 @@ static int c16_cmd (char *line)
       path[lp] = 0;
       ru (path);
       c16_savename = name;
+      ip_lastpath[0] = 0;
+      ip_armed = 1;
+      ip_count = 0;
+      ip_exit_at = ip_fail_at = -1;
       int r = call_so (atoi (tok[2]));
+      ip_armed = 0;
+      ip_file = 0;
       c16_savename = SAVE_LPC;
       struct stat st;
-      vh_out ("so %d made=%d", r, stat (path, &st) == 0);
+      {
+        /* the name of the temporary the save wrote to, and whether it is gone afterwards */
+        char hex[2100];
+        size_t k = strlen (ip_lastpath);
+        for (size_t i = 0; i < k; i++)
+          sprintf (hex + 2 * i, "%02x", (unsigned char) ip_lastpath[i]);
+        hex[2 * k] = 0;
+        vh_out ("so %d made=%d tmp=%s left=%d", r, stat (path, &st) == 0, hex, k && stat (ip_lastpath, &st) == 0);
+      }
       ru (path);
       return 1;
     }
@@ -976,6 +1014,17 @@ static int c16_cmd (char *line)
       ensure_obj ();
       vh_out ("so %d", call_so (atoi (tok[1])));
       out_file ();
+      {
+        struct stat st;
+        if (!strcmp (c16_savename, SAVE_LPC) && stat (SAVE_TMP, &st) == 0)
+          {
+            static int (*ru) (const char *);
+            if (!ru)
+              ru = (int (*)(const char *)) real ("unlink");
+            vh_out ("tmp-left-behind");	/* the save ended (LPC error) with its temporary still there */
+            ru (SAVE_TMP);
+          }
+      }
       return 1;
     }
   if (!strcmp (tok[0], "wf") && (n == 2 || n == 1))
